@@ -70,15 +70,15 @@ theorem quiet_push (i : Instr) (hi : i.skipped) (s : St) : Quiet s (s.push i) :=
   ⟨rfl, by rw [abs_push, hi.1], rfl,
    fun h => rd_push_nowrite h i hi.2.2 (fun q hq => by rw [hi.2.1] at hq; cases hq)⟩
 
-theorem root_pushVia (k : Nat) (i : Instr) (s : St) :
+theorem rootn_pushVia (k : Nat) (i : Instr) (s : St) :
     (s.pushVia k i).root.context = s.root.context ++ [i] ∧ (s.pushVia k i).root.innerNames = s.root.innerNames := by
   unfold St.pushVia St.push St.mapFrames St.mapCur
   cases s.inner <;> exact ⟨rfl, rfl⟩
 
 theorem quiet_pushVia (k : Nat) (i : Instr) (hi : i.skipped) (s : St) : Quiet s (s.pushVia k i) := by
-  refine ⟨(pushVia_fields k i s).1, ?_, (root_pushVia k i s).2, ?_⟩
+  refine ⟨(pushVia_fields k i s).1, ?_, (rootn_pushVia k i s).2, ?_⟩
   · unfold St.abs abstractFold
-    rw [(root_pushVia k i s).1, List.foldl_append]
+    rw [(rootn_pushVia k i s).1, List.foldl_append]
     exact hi.1 _
   · intro h
     unfold St.pushVia
